@@ -9,20 +9,107 @@ TRUST = ("Trusted: CPython/ruamel.yaml semantics as encoded in pyvc (DESIGN §3.
          "the assumed external contracts listed in the evidence file, and the two-line lifting meta-arguments of DESIGN §6. "
          "The bounded stand-in is labelled bounded and never counted as proved.")
 
+BOUNDED = ("Bounded stand-in (labelled bounded, never counted as proved): run-time contract harness rtc/c%s.py drives the REAL "
+           "functions over an enumerated input space with an oracle written from the statement; ")
 CHECKS = {
     # id: (level, text, technique, design_ref)
+    "C01": ("exploration",
+            BOUNDED % "01" + "get_nodes(mustexist=True|False)/exists compared with spec.query (node identity + order, both notations) over all documents "
+            "<= 4 nodes x the segment vocabulary.  Deductive part: the handlers it rests on are verified for safety under C15; their functional "
+            "post-conditions are not yet discharged, so nothing is claimed as proved here.",
+            "bounded run-time contract check of the real query API against an executable spec (stand-in for the deductive handler post-conditions)",
+            "DESIGN.md §6 C01, Appendix A"),
+    "C02": ("exploration",
+            BOUNDED % "02" + "parent/parentref/ancestry/reported-path re-resolution of every result of every query, keys over the escapable punctuation set. "
+            "Deductive part: YAMLPath.__add__ proved total and non-mutating in shape (C15 contract); wf_step site obligations not yet attached.",
+            "bounded run-time contract check (wf + re-query of every result)",
+            "DESIGN.md §6 C02"),
+    "C03": ("exploration",
+            BOUNDED % "03" + "set_value against a plain-data model incl. aliases, dump+strict reload, and edit histories (set/create/delete) step by step.",
+            "bounded run-time contract check against a plain-data model; histories exhaustive to length 3",
+            "DESIGN.md §6 C03/C04"),
+    "C04": ("exploration",
+            BOUNDED % "04" + "delete_nodes/delete_gathered_nodes against the model: multi-match, nested, empty targets, negative indexes, double matches, root refusal.",
+            "bounded run-time contract check against a plain-data model",
+            "DESIGN.md §6 C03/C04"),
+    "C05": ("exploration",
+            BOUNDED % "05" + "Merger.merge_with vs spec.merge over document pairs x all 180 policy mixes x per-path rules/keys; any non-MergeException is a violation.",
+            "bounded run-time contract check against an executable merge spec",
+            "DESIGN.md §6 C05, Appendix C"),
+    "C06": ("exploration",
+            BOUNDED % "06" + "Differ reports checked clause by clause (entry truth, coverage, reflexivity, exactly-once accounting, non-SAME iff data differ) over document pairs x modes.",
+            "bounded run-time contract check of the diff clauses",
+            "DESIGN.md §6 C06"),
+    "C07": ("exploration",
+            BOUNDED % "07" + "search_for_paths vs spec.search (sound, complete, at most once) and re-query of every printed path, anchors/aliases/merge keys included.",
+            "bounded run-time contract check against an executable search spec",
+            "DESIGN.md §6 C07"),
+    "C08": ("exploration",
+            BOUNDED % "08" + "independent renderer -> parse round trip for all short segment sequences in both notations, canonical fixed point, ==, append/pop.  "
+            "Deductive part (shared with C14): ensure_escaped / escape_path_section / infer_separator / term __str__ proved total with their type post-conditions.",
+            "bounded round-trip check; totality of the stringifier functions proved by pyvc",
+            "DESIGN.md §6 C08"),
+    "C09": ("exploration",
+            BOUNDED % "09" + "deep snapshot before/after every read call incl. collector expressions; creation of missing tails against a plain-data model.",
+            "bounded run-time contract check (snapshot purity, creation model)",
+            "DESIGN.md §6 C09"),
+    "C10": ("exploration",
+            BOUNDED % "10" + "anchor conflicts: all pairs over the name pool {x, y} x 4 policies x merge policies, dump + strict reload (exhaustive small space).",
+            "bounded run-time contract check, exhaustive over the small anchor space",
+            "DESIGN.md §6 C05/C10/C11"),
+    "C11": ("exploration",
+            BOUNDED % "11" + "merge aimed at a path: target subtree equals the policy merge, complement unchanged, missing targets created, uncreatable targets refused.",
+            "bounded run-time contract check with complement snapshots",
+            "DESIGN.md §6 C05/C10/C11"),
     "C12": ("proof",
             "Every verification condition of Searches.search_matches and Nodes.typed_value is generated from the current source and discharged: "
-            "result == documented typed rules for all methods, needles and haystacks; no exception for a well-formed term. "
+            "result == documented typed rules for all methods, terms and values; no exception for a well-formed term; "
+            "the search handler's yield sites use the proved comparison through its call-site contract. "
             "Bounded: the full operator x haystack x needle grid natively (validates the assumed literal_eval / re contracts) and inversion on small documents.",
-            "contract-based deductive verification: VCs generated from the real AST (pyvc) discharged by z3; bounded run-time contract grid as stand-in",
+            "contract-based deductive verification: VCs generated from the real AST (pyvc) discharged by z3/cvc5; bounded run-time contract grid as stand-in",
             "DESIGN.md §6 C12"),
+    "C13": ("exploration",
+            BOUNDED % "13" + "definitional oracle for max/min/unique/distinct/has_child/parent/name over all short same-kind sequences, AoH and hashes-of-hashes. "
+            "Deductive part: the keyword dispatcher and SearchKeywordTerms.parameters are verified for safety (C15); the scans are assumed there.",
+            "bounded run-time contract check against definitional oracles",
+            "DESIGN.md §6 C13"),
     "C14": ("proof",
-            "Safety (no exception other than YAMLPathException) of every raising operation in YAMLPath._parse_path and _expand_splats for all strings, "
-            "with one loop invariant; termination is structural (for-loops over immutable strings, acyclic call graph). "
-            "Bounded: exhaustive short strings over the syntax alphabet + random Unicode.",
+            "Safety (no exception other than YAMLPathException) of every raising operation in the whole parser call graph (__init__, original/separator "
+            "accessors, escaped, unescaped, _parse_path, _expand_splats, __str__, _stringify_yamlpath_segments, ensure_escaped, escape_path_section, "
+            "infer_separator, term-class constructors and __str__) for all strings, with one loop invariant; termination is structural (K6). "
+            "Bounded: every string of length <= 4 over the 27-character syntax alphabet + random Unicode.",
             "contract-based deductive verification: loop-invariant VCs from the real AST (pyvc) discharged by z3; exhaustive bounded parse as stand-in",
             "DESIGN.md §6 C14"),
+    "C15": ("other",
+            "Mixed. PROVED (for all documents, paths and indexes, modulo the listed class invariants of parsed paths): the dispatcher, the KEY, INDEX/slice, "
+            "ANCHOR, SEARCH, match-all (3), traversal, keyword-search relay handlers, the required-match driver, node_is_aoh, YAMLPath.__add__, "
+            "SearchKeywordTerms.parameters, search_matches, typed_value raise nothing but YAMLPathException (K1 at every subscript/int()/in/ordering/"
+            "attribute site).  BOUNDED only: collectors, the seven keyword scans, _get_optional_nodes (exception-type monitor over documents x paths).",
+            "contract-based deductive verification of the evaluator handlers (pyvc, z3+cvc5) + bounded exception-type monitor for the functions outside the subset",
+            "DESIGN.md §6 C15"),
+    "C16": ("exploration",
+            BOUNDED % "16" + "the six console entry points run in-process (argv/stdin/stdout patched) against the library answers: output lines, files, exit codes, "
+            "file vs stdin delivery, YAML and JSON.",
+            "bounded in-process contract check of the CLI entry points",
+            "DESIGN.md §6 C16"),
+    "C17": ("fault_enumeration",
+            "Fault enumeration (bounded): every pre-write failure cause of yaml-set / yaml-merge leaves the directory byte-identical; for successful edits a fault "
+            "is injected at the k-th I/O call of the save sequence for every k, with/without --backup and a stale .bak: target or .bak keeps the original bytes. "
+            "The ghost-state ordering proof of DESIGN §6 C17 is not yet attached, so nothing is claimed as proved.",
+            "fault enumeration at every I/O call of the real save sequences (bounded stand-in for the ghost-state ordering obligations)",
+            "DESIGN.md §6 C17"),
+    "C18": ("proof",
+            "Driver structure proved for all stream lengths: merge_condense_all, merge_across, merge_matrix and merge_docs are verified iteration by iteration "
+            "(ghost events = the merge_with calls each iteration makes; loop invariants over list lengths): every iteration performs exactly the pairwise merge "
+            "the mode defines, output counts are functions of mode and lengths, the mode alone selects the driver.  Relative to the merge_with contract (= C05). "
+            "Bounded: streams of length 1..4 x modes x policies against the fold of spec.merge, also through yaml_merge.main().",
+            "contract-based deductive verification of the multi-document drivers (pyvc: loop invariants, per-iteration post-conditions, ghost call events) modulo C05",
+            "DESIGN.md §6 C18"),
+    "C19": ("exploration",
+            BOUNDED % "19" + "eyaml-rotate-keys with a deterministic stand-in eyaml executable over documents mixing plaintext and secrets; is_eyaml_value exhaustively "
+            "over strings <= 7 from {space, newline, E, N, C, [, x}.",
+            "bounded run-time contract check with a stand-in eyaml executable",
+            "DESIGN.md §6 C19"),
 }
 
 NOT_YET = {}
@@ -60,7 +147,7 @@ def main():
         ],
         "checks": checks,
         "not_applicable": na,
-        "notes": "fix: commits in /repo: 3c85570 (C14), b0900cb (C12/C15). known_findings.jsonl lists fixed and known findings.",
+        "notes": "Genuine defects found on the pinned tree were repaired by unguarded `fix:` commits in /repo (listed as `fixed:` entries in known_findings.jsonl); the remaining ones are `known` entries there and are described in DESIGN.md §7.",
     }
     with open(os.path.join(VERIF, "MANIFEST.json"), "w") as fh:
         json.dump(m, fh, indent=1)
